@@ -77,6 +77,25 @@ def serialize_shape(rep, F, rule='R-FWD'):
     return n
 
 
+def adapter_bodies(F, f):
+    """the adapter, its closures, and the free helpers of the same file it calls or hands over as a function value"""
+    bodies = [f]
+    i = 0
+    while i < len(bodies):
+        g = bodies[i]
+        i += 1
+        for x in F.closures_of(g.name):
+            if F.fns[x] not in bodies:
+                bodies.append(F.fns[x])
+        for bid, t in g.calls():
+            for nme in sorted(F.call_targets(g, t)):
+                h = F.fns.get(nme)
+                if h is not None and h not in bodies and h.file == f.file and h.trait is None and not h.is_closure \
+                        and not re.search(r'::(de)?serialize$|::visit_\w+$|::expecting$', h.name) and len(bodies) < 12:
+                    bodies.append(h)
+    return bodies
+
+
 def sibling_limit(rep, F, E, rule='SIBLING-LIMIT'):
     """both JSON-number adapters must compare the deserialised scale with SERDE_SCALE_LIMIT"""
     n = 0
@@ -84,9 +103,7 @@ def sibling_limit(rep, F, E, rule='SIBLING-LIMIT'):
         if f.is_closure or not re.search(r'impl_serde::arbitrary_precision(_option)?::deserialize$', f.name):
             continue
         n += 1
-        bodies = [f] + [F.fns[c] for c in F.closures_of(f.name)]
-        for c in list(bodies):
-            bodies += [F.fns[x] for x in F.closures_of(c.name) if F.fns[x] not in bodies]
+        bodies = adapter_bodies(F, f)
         hit = False
         for g in bodies:
             env = E.local[g.name]
@@ -125,9 +142,7 @@ def guard_signatures(F, fn):
             return panic.Provenance.of_place(self, pl, depth)
 
     sigs = set()
-    bodies = [fn] + [F.fns[c] for c in F.closures_of(fn.name)]
-    for c in list(bodies):
-        bodies += [F.fns[x] for x in F.closures_of(c.name) if F.fns[x] not in bodies]
+    bodies = adapter_bodies(F, fn)
     for g in bodies:
         pv = PV(g)
         uses_limit = False
